@@ -5,7 +5,7 @@
 From Coq Require Import ZArith QArith Qcanon List Lia.
 From DV Require Import Base.Field Base.FieldFacts Base.LinAlg Base.QcInst Model.Sampler Model.SamplerQc Model.Flow Model.FlowQc
   Model.BCH Model.Lie Gen.FlowAlg Gen.FlowBCH Gen.FlowDeriv Proofs.C11Interp Proofs.C11Compose Proofs.C11Compose3 Proofs.C11Expv Proofs.C11Gen
-  Proofs.C13Compose Proofs.C13Lie Proofs.C13BCH.
+  Proofs.C13Compose Proofs.C13Lie Proofs.C13BCH Proofs.C13Spacing Model.Lattice.
 Import ListNotations.
 
 Section Statements.
@@ -155,6 +155,17 @@ Proof. intro ac. repeat split; destruct ac; reflexivity. Qed.
 Theorem C13_compose_flows_batched : gen_compose_flows_batched = true.
 Proof. reflexivity. Qed.
 End Statements.
+
+(* 7. logv(spacing=None) differentiates its BCH brackets with the distance of neighbouring grid points of the convention it is
+      given (generated by recording the compose_svfs call for sizes 2..9 and both flags; None = flow_derivatives' default, verified
+      to be 2/(n-1)): 2/(n-1) for align_corners=True, 2/n for False = coordinate of sample 1 minus coordinate of sample 0;
+      an explicit spacing, sigma and bch_terms are forwarded unchanged (checked on the trace) *)
+Theorem C13_logv_bracket_spacing_is_grid_distance :
+  (forall ac n, In n [2; 3; 4; 5; 6; 7; 8; 9]%Z ->
+     (gen_logv_bch_spacing ac n == (if ac then 2 / (inject_Z n - 1) else 2 / inject_Z n))%Q) /\
+  forallb (fun n => spacing_ok true n && spacing_ok false n) [2; 3; 4; 5; 6; 7; 8; 9]%Z = true.
+Proof. split; [exact logv_spacing_closed_form | exact logv_spacing_is_grid_distance]. Qed.
+Print Assumptions C13_logv_bracket_spacing_is_grid_distance.
 
 Print Assumptions C13_compose_affine_exact_2d.
 Print Assumptions C13_compose_affine_exact_3d.
